@@ -1389,7 +1389,20 @@ func (z *Decimal) Sub(x, y *Decimal) *Decimal {
 
 	// ±0 - y
 	// x - ±Inf
-	return z.Neg(y)
+	// The result must be rounded with its own sign, not y's:
+	// z.Neg(y) would round y first and flip the sign afterwards.
+	neg := !y.neg
+	z.acc = Exact
+	if z != y {
+		z.form = y.form
+		if y.form == finite {
+			z.exp = y.exp
+			z.mant = z.mant.set(y.mant)
+		}
+	}
+	z.neg = neg
+	z.round(0)
+	return z
 }
 
 // Uint64 returns the unsigned integer resulting from truncating x
